@@ -331,7 +331,7 @@ var propDeps = map[string][]string{
 	"C04b": {"C04"},
 	// C19: "parsing the traffic ... never ... withholds or stops the relayed stream": the parser the
 	// proxy starts consumes its whole input (the lossless-segmentation clauses of the framing stage)
-	"C19": {"C02"},
+	"C19": {"C02", "C18"}, // ... and the report lists the messages the queue holds (C18 clauses)
 }
 
 // propSupport: clauses of these properties are active inside the cone of the key property
